@@ -23,6 +23,16 @@ def opGuard (args : List String) : String :=
             .UnboundLocalError] : List Exc).find? (fun x => x.name == e) with
     | some x => if caughtBy hs x then "1" else "0"
     | none => "unknown"
+  | ["output", e] =>
+    -- outcome of the output-file stage: "continue" or the outcome main ends with
+    let o : Option Output :=
+      if e == "none" then some .notRequested else if e == "written" then some .written
+      else (outputRaises.find? (fun x => x.name == e)).map Output.raises
+    match o with
+    | some o => match wrapOutput Pmn.Const.outputCaught o with
+      | none => "continue"
+      | some r => outcomeName r
+    | none => "unknown"
   | _ => "bad-op"
 
 end Driver
